@@ -77,6 +77,8 @@ template <typename S> struct monitored : S {
 };
 
 struct c19_ctx { std::atomic<int> started{0}, finished{0}, canary_bad{0}; };
+// extra object with an alignment requirement above the frame's natural 8 bytes
+struct alignas(16) tracked16 { tracked t; long double ld; explicit tracked16(uint64_t id) : t(id), ld(1.5L) {} bool ok() const { return t.ok() && ((uintptr_t)this % alignof(tracked16)) == 0 && ld == 1.5L; } };
 template <typename St, int N>
 cocls::with_allocator<St, cocls::async<int>> st_body(St &, c19_ctx &C, int id, cocls::future<void> *gate) {
     uint64_t can[N];
@@ -258,31 +260,36 @@ inline void storage_sequences(const vf::opts &o, vf::report &R, uint64_t seqs) {
             if (res.err.empty()) res.err = st_no_heap_after_warmup<monitored<RB>>([vp] { return std::make_unique<monitored<RB>>(*vp); }, (int)r.below(3), pname);
             break;
         }
-        default: { // storage with an attached extra object
+        default: { // storage with an attached extra object (ordinary and over-aligned type, frames of 8 mod 16 and 0 mod 16 bytes)
             pname = "promise_extra_storage";
-            using ES = cocls::promise_extra_storage<tracked>;
             long ctor0 = tracked::ctor.load();
-            {
-                monitored<ES> st([] { return tracked(4242); });
+            auto run_extra = [&](auto tag, const char *tname) {
+                using XT = typename decltype(tag)::type;
+                using ES = cocls::promise_extra_storage<XT>;
+                monitored<ES> st([] { return XT(4242); });
                 c19_ctx C;
                 cocls::future<void> gate; auto gp = gate.get_promise();
                 {
-                    bool big = r.chance(1, 2);
-                    auto coro = big ? st_body<monitored<ES>, 90>(st, C, 7, &gate) : st_body<monitored<ES>, 24>(st, C, 7, &gate); // coroutine object exists, not started
-                    if (tracked::live.load() != live0 + 1) res.err = "extra object not constructed exactly once when the coroutine object was created (live delta " + std::to_string(tracked::live.load() - live0) + ")";
-                    else if (!(*st).ok() || st->id != 4242) res.err = "extra object not usable before the coroutine is started";
+                    int fsize = (int)r.below(4);
+                    auto mk = [&](cocls::future<void> *g) { return fsize == 0 ? st_body<monitored<ES>, 24>(st, C, 7, g) : fsize == 1 ? st_body<monitored<ES>, 29>(st, C, 7, g) : fsize == 2 ? st_body<monitored<ES>, 90>(st, C, 7, g) : st_body<monitored<ES>, 6>(st, C, 7, g); };
+                    auto coro = mk(&gate); // coroutine object exists, not started
+                    if (tracked::live.load() != live0 + 1) res.err = std::string("extra object (") + tname + ") not constructed exactly once when the coroutine object was created (live delta " + std::to_string(tracked::live.load() - live0) + ")";
+                    else if (!(*st).ok()) res.err = std::string("extra object (") + tname + ") not usable before the coroutine is started (corrupt or misaligned)";
                     cocls::future<int> f = coro.start();
                     if (res.err.empty() && tracked::live.load() != live0 + 1) res.err = "extra object count changed when the coroutine started";
                     gp();
                     if (res.err.empty() && (!f.ready() || f.value() != 7)) res.err = "coroutine with extra object returned a wrong value";
                 }
-                if (res.err.empty() && tracked::live.load() != live0) res.err = "extra object not destroyed with the frame (live delta " + std::to_string(tracked::live.load() - live0) + ")";
-                if (res.err.empty() && tracked::ctor.load() - ctor0 != 1) res.err = "extra object constructed " + std::to_string(tracked::ctor.load() - ctor0) + " times instead of once";
+                if (res.err.empty() && tracked::live.load() != live0) res.err = std::string("extra object (") + tname + ") not destroyed with the frame (live delta " + std::to_string(tracked::live.load() - live0) + ")";
                 // never started: destroyed with the frame as well
                 { auto coro2 = st_body<monitored<ES>, 2>(st, C, 8, nullptr); (void)coro2; }
                 if (res.err.empty() && tracked::live.load() != live0) res.err = "extra object of a never started coroutine not destroyed exactly once";
-                res.desc = "promise_extra_storage: create, inspect, start, finish, never-started";
-            }
+            };
+            struct tag8 { using type = tracked; }; struct tag16 { using type = tracked16; };
+            bool over = r.chance(1, 2);
+            if (over) run_extra(tag16{}, "alignas(16)"); else run_extra(tag8{}, "tracked");
+            if (res.err.empty() && tracked::ctor.load() - ctor0 != 2) res.err = "extra objects constructed " + std::to_string(tracked::ctor.load() - ctor0) + " times for 2 coroutine objects";
+            res.desc = std::string("promise_extra_storage<") + (over ? "alignas(16) type" : "tracked") + ">: create, inspect, start, finish, never-started";
             break;
         }
         }
